@@ -17,6 +17,14 @@ TRIGGERS = [('less and except', 'less_except'), ('except', 'less_except'), ('lim
             ('well', 'well')]
 
 
+def earlier_same_flag(text, phrase, flag):
+    from pytrs.parser import rgxlib
+    rgx = {'well': rgxlib.well_regex, 'depth': rgxlib.depth_regex, 'including': rgxlib.including_regex,
+           'less_except': rgxlib.less_except_regex, 'insofar': rgxlib.isfa_regex}[flag]
+    k = text.lower().find(phrase.split()[0].lower())
+    return k > 0 and any(m.start() < k for m in rgx.finditer(text))
+
+
 def typed_ok(flags, lines):
     if not isinstance(flags, list) or not isinstance(lines, list):
         return 'flag containers are not lists'
@@ -89,7 +97,10 @@ def check(rep, text, cfg, layout, trigger=None, rng=None):
             why = f'trigger wording {phrase!r} did not raise the {flag!r} warning'
         elif not any(phrase.split()[0].lower() in l[1].lower() for l in hits):
             why = f'the {flag!r} warning context does not contain the triggering words'
-            tag = 'C10-trigger-cut-by-context'
+            # the listed finding is specific: a trigger that starts inside the context window of an EARLIER warning of the same
+            # kind.  A trigger with no earlier match of its pattern in the text (e.g. at the very start of the text) is not it.
+            if earlier_same_flag(d.pp_desc, phrase, flag):
+                tag = 'C10-trigger-cut-by-context'
     if why:
         rep.violation('failing-input', {'text': text, 'config': cfg, 'layout': layout, 'trigger': trigger, 'why': why,
                                         'w_flags': str(d.w_flags)[:300], 'e_flags': str(d.e_flags)[:300]}, tag=tag)
@@ -119,7 +130,7 @@ def run(ctx):
         # (canonical one-token Twp/Rge spelling: a trigger word is never placed *inside* a Twp/Rge)
         base, lay, g = descs.structured(r, max_tr=2, max_sg=2, canonical_tr=True)
         toks = base.split(' ')
-        p = r.below(len(toks) + 1)
+        p = 0 if r.chance(1, 6) else r.below(len(toks) + 1)     # the very start of the text: no room for left context
         trig = r.choice(TRIGGERS)
         t2 = ' '.join(toks[:p] + [trig[0]] + toks[p:])
         mode = r.choice([None, None, 'sec_within', 'sec_colon_cautious', 'parse_qq'])
